@@ -124,6 +124,7 @@ fn data_strategy(tier: Tier) -> BoxedStrategy<Vec<u8>> {
         b"\xff\xfe binary \x00", b"$NetBS$NetBSD", b"--- a/file.orig", b"+++ b/file",
         // the marker in another letter case is not the marker
         b"$NETBSD$", b"$netbsd: x $", b"+CPPFLAGS+= -I$NETBSDSRCDIR/sys", b"$NetBsD", b"$nETbsd",
+        b"dos line\r", b"$NetBSD$\r", b"a\rb",
     ]);
     let patch = (
         prop::collection::vec(patch_line, 0..30),
